@@ -16,6 +16,8 @@ W = Fraction(2)
 
 def trivial(c):
     n = c.mdims[0]
+    if c.op == "fuse_ss":
+        return c.nums[n] in (0.0, 1.0)
     u1, u2 = c.nums[n], c.nums[3 * n + 1]
     return u1 in (0.0, 1.0) or u2 in (0.0, 1.0)
 
@@ -39,6 +41,14 @@ def gen(rng, tier):
                 for opk in range(4):
                     out.append(Case("fuse", ty, rng.choice(FAMS), rng.choice(["own", "ref", "assign"]),
                                     [n, opk, 0], flat_op(w1) + flat_op(w2), tag="grid"))
+                if i % 3 == 0:
+                    # an opinion fused with itself, passed as one object (cumulative fusion doubles the evidence)
+                    for opk in range(4):
+                        out.append(Case("fuse", ty, rng.choice(FAMS), rng.choice(["self", "self_ref"]),
+                                        [n, opk, 1], flat_op(w1) + flat_op(w1), tag="self"))
+                        if opk != 1:
+                            out.append(Case("fuse_ss", ty, rng.choice(FAMS), "self", [n, opk],
+                                            list(w1[0]) + [w1[1]] + list(w1[0]) + [w1[1]], tag="self_simplex"))
     return out
 
 
@@ -101,6 +111,17 @@ def oracle(opk, w1, w2):
 
 def predicates(c, ri, rm):
     n, opk = c.mdims[0], c.mdims[1]
+    if c.op == "fuse_ss":
+        if ri[0] != "OK":
+            return ["%s of simplexes failed: %s" % (OPS[opk], ri[:2])]
+        b1, u1 = fr(c.nums[:n]), Fraction(c.nums[n])
+        z = [Fraction(1, n)] * n
+        wb, wu, _ = oracle(opk, (b1, u1, z), (b1, u1, z))
+        got = fr(ri[1])
+        if any(abs(g - w) > TOL[c.ty] * 4 for g, w in zip(got, wb + [wu])):
+            return ["%s of a simplex with itself is %r, the evidence-space definition gives %s" % (
+                OPS[opk], ri[1], [float(x) for x in wb + [wu]])]
+        return []
     if ri[0] != "OK":
         return ["%s failed: %s" % (OPS[opk], ri[:2])]
     vals = ri[1]
